@@ -355,6 +355,99 @@ def gen_valid_stream(rng, chain=None, form=None, big=False, force_ec='any', plai
     return line, {'kind': 'chain-' + '+'.join(f[:2] for f in chain), 'nontrivial': True, 'cov': sorted(tags)}
 
 
+def late_differs(enc, payload):
+    """reading an EarlyChange-1 stream with the late width switch does not give the data (so the default matters)"""
+    try:
+        return lzw_decode(enc, 0) != payload
+    except (ValueError, IndexError, TypeError):
+        return True
+
+
+NOEC_VARIANTS = ['empty', 'pred', 'pred', 'pred1', 'cols', 'other', 'arr-empty', 'arr-pred', 'a85-arr-empty', 'a85-arr-pred',
+                 'lzw-flate-arr', 'shared-dict-pred']
+
+
+def gen_lzw_noec(rng, variant, encoder):
+    """LZWDecode with a DecodeParms dictionary that EXISTS but has no EarlyChange entry (only predictor parameters,
+    foreign keys, or nothing at all): ISO 32000-1 table 8 says EarlyChange defaults to 1.  The data is long enough for
+    the code width to change from 9 to 10 bits (more than 300 codes), the only place where the default shows.
+    encoder: 'py' = the reference encoder above, 'weezl' = weezl's own encoder through `c09 --oracle` (e1).
+    The expected decoding is the plain data the encoders were given."""
+    tags = {'kind': 'lzw-parms-noec-' + variant, 'nontrivial': True, 'cov': ['lzw-e-absent-in-dict', 'lzw-10bit', 'enc-' + encoder]}
+    kind = 'random' if encoder == 'weezl' else rng.choice(['random', 'random', 'runs', 'text'])
+    size = rng.choice([1000, 1500, 2500]) if encoder == 'weezl' else rng.choice([600, 1000, 1500, 2500])
+    def build(size):
+        ent = []
+        if 'pred' in variant and variant != 'pred1':
+            colors, bpc, columns = rng.choice([1, 1, 3, 4]), rng.choice([8, 8, 16]), rng.choice([1, 5, 16, 31, 64])
+            bpp = colors * bpc // 8
+            bpr = bpp * columns
+            nrows = max(2, size // bpr)
+            plain = rand_bytes(rng, bpr * nrows, kind)
+            rows = [plain[i * bpr:(i + 1) * bpr] for i in range(nrows)]
+            pred = rng.randint(10, 15)
+            types = [rng.randint(0, 4) for _ in rows] if pred == 15 or rng.random() < 0.3 else [pred - 10] * nrows
+            payload = png_encode_frame(types, bpp, rows)
+            ent = [('Predictor', I(pred)), ('Columns', I(columns))]
+            if colors != 1 or rng.random() < 0.3:
+                ent.append(('Colors', I(colors)))
+            if bpc != 8 or rng.random() < 0.3:
+                ent.append(('BitsPerComponent', I(bpc)))
+            rng.shuffle(ent)
+        else:
+            plain = payload = rand_bytes(rng, size, kind)
+            if variant == 'pred1':
+                ent = [('Predictor', I(1))] + ([('Columns', I(7))] if rng.random() < 0.5 else [])
+            elif variant == 'cols':
+                ent = [('Columns', I(rng.choice([1, 5, 100])))]
+            elif variant == 'other':
+                ent = [('K', I(-1)), ('BlackIs1', B(False))]
+        return plain, payload, ent
+    plain, payload, ent = build(size)
+    while encoder == 'py' and variant != 'lzw-flate-arr' and (len(lzw_encode(payload, 1)) * 8) // 10 <= 320:
+        size *= 2                   # compressible data: make it longer until the code width changes
+        plain, payload, ent = build(size)
+    orc = []
+    if variant == 'lzw-flate-arr':
+        # [LZW Flate] with [<< >> null]: the LZW stage carries a zlib stream
+        z = zlib.compress(payload, rng.choice([0, 1, 9]))
+        while (len(lzw_encode(z, 1)) * 8) // 10 <= 320:
+            payload = plain = payload + rand_bytes(rng, 1000, 'random')
+            z = zlib.compress(payload, 0)
+        orc.append(('f', z, payload))
+        payload = z
+    newc = rand_bytes(rng, rng.choice([0, 5]))
+    def finish(enc):
+        o = orc + [('l1', enc, payload)]
+        content = enc
+        if variant in ('arr-empty', 'arr-pred'):
+            entries = [('Filter', rng.choice([N(LZ), A([N(LZ)])])), ('DecodeParms', A([D(ent)]))]
+        elif variant in ('a85-arr-empty', 'a85-arr-pred'):
+            content = a85_encode(enc, rng)
+            entries = [('Filter', A([N(A8), N(LZ)])), ('DecodeParms', A([NULL, D(ent)]))]
+        elif variant == 'lzw-flate-arr':
+            entries = [('Filter', A([N(LZ), N(FL)])), ('DecodeParms', A([D(ent), NULL]))]
+        elif variant == 'shared-dict-pred':
+            # one dictionary for [ASCII85 LZW]: lopdf hands it to every stage; ASCII85 takes no parameters
+            content = a85_encode(enc, rng)
+            entries = [('Filter', A([N(A8), N(LZ)])), ('DecodeParms', D(ent))]
+        else:
+            entries = [('Filter', rng.choice([N(LZ), A([N(LZ)])])), ('DecodeParms', D(ent))]
+        if rng.random() < 0.7:
+            entries.append(('Length', I(len(content))))
+        rng.shuffle(entries)
+        return stream_case(entries, content, o, plain, newc)
+    if encoder == 'py':
+        enc = lzw_encode(payload, 1)
+        assert (len(enc) * 8) // 10 > 300 and lzw_decode(enc, 1) == payload and late_differs(enc, payload)
+        return finish(enc), tags
+    def make(ans):
+        enc = ans[('e1', payload)]
+        assert (len(enc) * 8) // 10 > 300 and lzw_decode(enc, 1) == payload, 'weezl encoder and reference decoder disagree'
+        return finish(enc)
+    return Pending(make, [('e1', payload)], tags), None
+
+
 def gen_unfiltered(rng):
     """no Filter: get_plain_content = content; compress consults flate2 (oracle z)"""
     kind = rng.choice(['zeros', 'text', 'runs', 'random', 'small'])
@@ -720,6 +813,14 @@ def gen_cases(rng, tier):
             items.append(gen_valid_stream(rng, [LZ], form, big=True, force_ec=ec, plain_kind='random', pred=False))
         items.append(gen_valid_stream(rng, [A8, LZ], 'array', big=True, force_ec=None, plain_kind='random', pred=False))
         items.append(gen_valid_stream(rng, [LZ, FL], 'none', big=True, force_ec=None, plain_kind='random', pred=False))
+    # ... and the case the loop above cannot build: a DecodeParms dictionary that is PRESENT without an EarlyChange entry
+    # (predictor parameters only, foreign keys, empty dictionary; dictionary / array form; inside chains), LZW streams from
+    # the reference encoder and from weezl's own encoder
+    for rep in range(k):
+        for variant in NOEC_VARIANTS:
+            for encoder in ('py', 'weezl'):
+                r = gen_lzw_noec(rng, variant, encoder)
+                items.append(r[0] if isinstance(r[0], Pending) else r)
     # every partial final ASCII85 group x z / no z / white space / missing EOD
     for n in range(0, 13):
         for opts in ({'use_z': True, 'eod': True}, {'use_z': False, 'eod': True}, {'use_z': True, 'eod': False, 'ws': 0.3},
@@ -757,7 +858,9 @@ SPEC = {
     'bin': 'c09',
     'gen_cases': gen_cases,
     'rule': 'reference-encoded streams over all 39 chains of length 1-3 of Flate/LZW/ASCII85 (zlib levels 0/1/6/9, LZW EarlyChange '
-            'absent/0/1 incl. streams long enough for the code width to change, PNG predictors 10-15 with per-row types, '
+            'absent/0/1 incl. streams long enough for the code width to change, DecodeParms dictionaries present WITHOUT EarlyChange '
+            '(predictor parameters only / foreign keys / empty; dictionary and array form; in chains) on LZW streams of more than 300 '
+            'codes produced by the reference encoder and by weezl\'s own encoder, PNG predictors 10-15 with per-row types, '
             'Columns/Colors/BitsPerComponent 8|16 geometries, DecodeParms as dictionary, as parallel array, absent), every ASCII85 '
             'final group length with z / white space incl. NUL / missing EOD / bytes after EOD, unfiltered streams around the '
             'compression threshold, empty filter lists, 20 kinds of damage, png::decode_row / decode_frame directly (types 0-4, '
